@@ -97,8 +97,11 @@ type c20Sub struct {
 	want    [][]byte // what a healthy subscriber must have received (reference filter)
 	stalled bool
 	gone    bool
-	unread  int // matching VAAs published while stalled
+	sent    int // deliveries Publish made to this subscriber (one per matching filter)
 }
+
+// unread: deliveries that have not reached the stream yet (measured, not assumed)
+func (sb *c20Sub) unread() int { return sb.sent - sb.st.count() }
 
 func open() chan struct{} { c := make(chan struct{}); close(c); return c }
 
@@ -129,8 +132,8 @@ func runC20(c c20Case) (*vh.Violation, vh.Outcome) {
 	blocked := func(what string, i int) *vh.Violation {
 		// is a stalled / disconnected subscriber with unread VAAs around? then this is the known root cause
 		for _, sb := range subs {
-			if (sb.stalled || sb.gone) && sb.unread >= 2 {
-				return vh.V(c20Known, "op %d: %s did not complete within %v while a subscriber that stopped reading has %d undelivered VAAs", i, what, deadline, sb.unread)
+			if (sb.stalled || sb.gone) && sb.unread() >= 3 {
+				return vh.V(c20Known, "op %d: %s did not complete within %v while a subscriber that stopped reading has %d undelivered VAAs", i, what, deadline, sb.unread())
 			}
 		}
 		return vh.V("C20/operation-blocked", "op %d: %s did not complete within %v although no subscriber is stalled", i, what, deadline)
@@ -184,26 +187,29 @@ func runC20(c c20Case) (*vh.Violation, vh.Outcome) {
 				v := &vaa.VAA{Version: 1, Timestamp: time.Unix(int64(seq), 0), Sequence: seq, EmitterChain: ec, EmitterAddress: ea, Payload: []byte{byte(seq), 1}}
 				b, _ = v.Marshal()
 			}
-			matches := func(sb *c20Sub) bool {
+			// deliveries: how many times Publish sends this VAA to the subscriber (once per matching filter)
+			deliveries := func(sb *c20Sub) int {
 				if len(sb.filters) == 0 {
-					return true
+					return 1
 				}
 				if o.Bad {
-					return false
+					return 0
 				}
+				n := 0
 				for _, f := range sb.filters {
 					if vaa.ChainID(f.Chain) == ec && c20Addr(f.Addr) == ea {
-						return true
+						n++
 					}
 				}
-				return false
+				return n
 			}
+			matches := func(sb *c20Sub) bool { return deliveries(sb) > 0 }
 			// exclusion of the known finding by construction: a third unread VAA for a subscriber that stopped reading
 			if known {
 				skip := false
 				for _, sb := range subs {
-					if (sb.stalled || sb.gone && sb.unread > 0) && matches(sb) && sb.unread >= 2 {
-						skip = true
+					if (sb.stalled || sb.gone && sb.unread() > 0) && matches(sb) && sb.unread()+deliveries(sb) > 2 {
+						skip = true // the third undelivered send to a subscriber that stopped reading blocks Publish: the known finding
 					}
 				}
 				if skip {
@@ -214,8 +220,8 @@ func runC20(c c20Case) (*vh.Violation, vh.Outcome) {
 			var perr error
 			if !within(deadline, func() { perr = s.Publish(b) }) {
 				for _, sb := range subs {
-					if (sb.stalled || sb.gone) && matches(sb) {
-						sb.unread++
+					if matches(sb) {
+						sb.sent += deliveries(sb)
 					}
 				}
 				return blocked("Publish", i), out
@@ -227,9 +233,7 @@ func runC20(c c20Case) (*vh.Violation, vh.Outcome) {
 				}
 				if matches(sb) {
 					sb.want = append(sb.want, b)
-					if sb.stalled {
-						sb.unread++
-					}
+					sb.sent += deliveries(sb)
 				}
 			}
 			// every healthy subscriber receives it
@@ -263,7 +267,6 @@ func runC20(c c20Case) (*vh.Violation, vh.Outcome) {
 				if sb.stalled && !sb.gone {
 					sb.st.resume()
 					sb.stalled = false
-					sb.unread = 0
 				}
 			}
 		case "disconnect":
@@ -275,7 +278,7 @@ func runC20(c c20Case) (*vh.Violation, vh.Outcome) {
 					sb.st.cancel()
 					select {
 					case <-sb.st.done:
-						sb.unread = 0
+						sb.sent = sb.st.count()
 					case <-time.After(deadline):
 						return blocked("removing a disconnected subscription", i), out
 					}
